@@ -401,6 +401,35 @@ def _opts(draw, has_text, unknown):
     return o
 
 
+_ALT_VALUES = {
+    "stroke-dashoffset": ["1", "2.5", "0.5", "4"],
+    "stroke-width": ["1", "2", "3", "0.5", "4.5", "10"],
+    "stroke-linecap": ["round", "square", "butt"],
+    "stroke-linejoin": ["round", "bevel", "miter"],
+    "stroke-miterlimit": ["1", "2", "10"],
+    "stroke-dasharray": ["4 2", "5,3,2", "1", "3 1 2 1"],
+    "fill-opacity": ["0.5", "0.25", "1"],
+    "fill-rule": ["evenodd", "nonzero"],
+}
+
+
+def _one_value_off(draw, svg):
+    import re
+
+    occ = [m for m in re.finditer(r' (' + "|".join(_ALT_VALUES) + r')="([^"]*)"', svg)]
+    dash = [m for m in occ if m.group(1) == "stroke-dasharray"]
+    if dash and draw(st.booleans()):
+        m = dash[draw(st.integers(0, len(dash) - 1))]
+        tail = svg[m.end():m.end() + 200].split(">")[0]
+        if "stroke-dashoffset" not in tail:
+            return svg[: m.end()] + f' stroke-dashoffset="{draw(st.sampled_from(_ALT_VALUES["stroke-dashoffset"]))}"' + svg[m.end():]
+    if not occ:
+        return None
+    m = occ[draw(st.integers(0, len(occ) - 1))]
+    others = [v for v in _ALT_VALUES[m.group(1)] if v != m.group(2)]
+    return svg[: m.start(2)] + draw(st.sampled_from(others)) + svg[m.end(2):]
+
+
 @st.composite
 def documents(draw, min_docs=4, max_docs=8):
     """List of {"name", "svg", "opts"} sharing one pool."""
@@ -422,6 +451,12 @@ def documents(draw, min_docs=4, max_docs=8):
         if draw(st.integers(0, 11)) == 0:
             svg = '<?xml version="1.0" encoding="UTF-8"?>\n' + svg
         docs.append({"name": f"gen{i}({kind})", "svg": svg, "opts": _opts(draw, b["has_text"], b["unknown"])})
+        if draw(st.integers(0, 3)) == 0:
+            # near-duplicate: the same document (same viewBox, same options) with ONE presentation value altered - what a
+            # result remembered from an earlier document under an incomplete key would get wrong
+            alt = _one_value_off(draw, svg)
+            if alt is not None:
+                docs.append({"name": f"gen{i}({kind})-one-value-off", "svg": alt, "opts": dict(docs[-1]["opts"])})
     if draw(st.integers(0, 2)) == 0:
         # a document whose default namespace is not SVG and whose SVG elements are prefixed: what a
         # converter does with the un-namespaced attributes must not depend on what it saw before
